@@ -212,7 +212,7 @@ Section Main.
     Proof.
       intros H. apply table_build_cell in H. destruct H as [Hq [E Hs]]. subst A.
       destruct (first_table_props G O HOf fi Ef) as [F1 [F2 F3]].
-      destruct (follow_table_props G fi F1 F2 F3 O HOo) as [fo' [Eo' [_ [_ [_ [_ Hu]]]]]].
+      destruct (follow_table_props G fi F1 F2 F3 O HOo) as [fo' [Eo' [_ [_ [_ [_ [Hu _]]]]]]].
       rewrite Eo in Eo'. inversion Eo'; subst fo'.
       split; [now apply (valid_prod G HV q Hq)|].
       unfold lookaheads. apply in_or_app. apply select_In in Hs.
